@@ -229,3 +229,65 @@ pub fn lir_text<C: OptCtx>(
     let checked = tree.parse()?.typecheck(rt)?;
     Ok(checked.lower_to_mir().lower_to_lir().verif_text())
 }
+
+/// The name of the `lir::Instruction` variant, by an exhaustive match (a new
+/// variant does not compile until it is named here; the names are compared
+/// with the variant list the translator reads from `lir/mod.rs`).
+fn kind_name(i: &Instruction) -> &'static str {
+    use Instruction::*;
+    match i {
+        Jump(..) => "Jump",
+        Switch { .. } => "Switch",
+        Assign { .. } => "Assign",
+        ConstantAddress { .. } => "ConstantAddress",
+        FunctionAddress { .. } => "FunctionAddress",
+        InitString { .. } => "InitString",
+        Call { .. } => "Call",
+        CallRuntime { .. } => "CallRuntime",
+        Return(..) => "Return",
+        IntCmp { .. } => "IntCmp",
+        FloatCmp { .. } => "FloatCmp",
+        Add { .. } => "Add",
+        Sub { .. } => "Sub",
+        Mul { .. } => "Mul",
+        Div { .. } => "Div",
+        Mod { .. } => "Mod",
+        FDiv { .. } => "FDiv",
+        Not { .. } => "Not",
+        Negate { .. } => "Negate",
+        Offset { .. } => "Offset",
+        Initialize { .. } => "Initialize",
+        Write { .. } => "Write",
+        Read { .. } => "Read",
+        Copy { .. } => "Copy",
+        Clone { .. } => "Clone",
+        Eq { .. } => "Eq",
+        Drop { .. } => "Drop",
+    }
+}
+
+/// One line per instruction, in the order of the `i` lines of [`dump_lir`]:
+/// the variant name of that instruction.
+pub(crate) fn dump_kinds(lir: &Lir) -> String {
+    let mut s = String::new();
+    for item in &lir.functions {
+        for b in &item.blocks {
+            for i in &b.instructions {
+                s.push_str(kind_name(i));
+                s.push('\n');
+            }
+        }
+    }
+    s
+}
+
+/// [`lir_dump`] together with the variant name of every dumped instruction
+/// (same lowering, same order).
+pub fn lir_dump_kinds<C: OptCtx>(
+    tree: FileTree,
+    rt: &Runtime<C>,
+) -> Result<(String, String), RotoReport> {
+    let checked = tree.parse()?.typecheck(rt)?;
+    let lowered = checked.lower_to_mir().lower_to_lir();
+    Ok((lowered.verif_c12_dump(), lowered.verif_c12_kinds()))
+}
